@@ -11,7 +11,7 @@ import subprocess
 
 from .common import VERIF, REPO
 
-CACHE = os.path.join(VERIF, ".cache", "rb")
+CACHE = os.path.join(VERIF, ".cache", "rb" + ("" if REPO == "/repo" else "-" + hashlib.sha1(REPO.encode()).hexdigest()[:8]))
 LIBS = {"_pack": "libpack_py.so", "_objects": "libobjects_py.so", "_diff_tree": "libdiff_tree_py.so"}
 
 
